@@ -3,18 +3,18 @@ package symgo
 // Race monitor (clock-free happens-before knowledge sets). Placeholder: filled in later.
 type raceState struct{}
 
-func newRaceState() *raceState                       { return &raceState{} }
-func (r *raceState) clone() *raceState               { return r }
-func (r *raceState) hash() (uint64, uint64)          { return 0, 0 }
-func (r *raceState) onGo(parent, child *G)           {}
-func (r *raceState) onRendezvous(a, b *G)            {}
+func newRaceState() *raceState                         { return &raceState{} }
+func (r *raceState) clone() *raceState                 { return r }
+func (r *raceState) hash() (uint64, uint64)            { return 0, 0 }
+func (r *raceState) onGo(parent, child *G)             {}
+func (r *raceState) onRendezvous(a, b *G)              {}
 func (r *raceState) onSend(g *G, ch ObjID, c *ChanObj) {}
 func (r *raceState) onRecv(g *G, ch ObjID, c *ChanObj) {}
-func (r *raceState) onRecvClosed(g *G, ch ObjID)     {}
-func (r *raceState) onClose(g *G, ch ObjID)          {}
-func (r *raceState) onAcquire(g *G, k ObjKey)        {}
-func (r *raceState) onRelease(g *G, k ObjKey)        {}
-func (r *raceState) onReleaseRead(g *G, k ObjKey)    {}
-func (r *raceState) onBarrier(st *State, g *G)       {}
+func (r *raceState) onRecvClosed(g *G, ch ObjID)       {}
+func (r *raceState) onClose(g *G, ch ObjID)            {}
+func (r *raceState) onAcquire(g *G, k ObjKey)          {}
+func (r *raceState) onRelease(g *G, k ObjKey)          {}
+func (r *raceState) onReleaseRead(g *G, k ObjKey)      {}
+func (r *raceState) onBarrier(st *State, g *G)         {}
 
 func (e *Engine) raceAccess(st *State, g *G, fr *Frame, p Ptr, write bool) {}
